@@ -3,6 +3,7 @@ C11 property theorems. Only statements of the property + non-vacuity examples li
 in Lemmas.lean (parsers, core-only) and Algebra.lean (abstract-group algebra, Mathlib).
 -/
 import BV.C11.Lemmas
+import BV.C11.Parsers
 import BV.C11.Algebra
 import BV.Generated.C11
 namespace BV.C11
@@ -13,6 +14,90 @@ open BV.Secp256k1
 /-- The lax (BER) ECDSA parser accepts everything the strict parser accepts, with the same (r, s). -/
 theorem lax_accepts_strict (sig : List UInt8) (v : Nat × Nat) (h : parseSig sig true = some v) :
     parseSig sig false = some v := Lemmas.parseSig_lax_of_strict sig v h
+
+/-- Both ECDSA parsers only ever return 1 ≤ r, s < n: zero and values ≥ n are rejected on every path. -/
+theorem ecdsa_sig_range (sig : List UInt8) (der : Bool) (r s : Nat) (h : parseSig sig der = some (r, s)) :
+    (1 ≤ r ∧ r < n) ∧ (1 ≤ s ∧ s < n) := Parsers.parseSig_range sig der r s h
+
+/-- **Strict DER is canonical (Spec).** A byte string is accepted, as (r, s), iff it IS the minimal DER encoding
+    of a pair with 1 ≤ r, s < n: correct tags, exact lengths, no negative or excessively padded INTEGER,
+    nothing after the sequence. Hence `encode ∘ parse = id` on accepted inputs and `parse ∘ encode = id`
+    on in-range pairs. -/
+theorem der_strict_canonical (sig : List UInt8) (r s : Nat) :
+    Spec.parseDER sig = some (r, s) ↔ ((1 ≤ r ∧ r < n) ∧ (1 ≤ s ∧ s < n) ∧ sig = Spec.encodeDER r s) :=
+  Parsers.specDER_iff sig r s
+
+/-- **The code's strict parser (`parseSig … der=true`) is canonical on every input that has no bytes after
+    the declared sequence length** — there it coincides with the Spec. What is missing for the full
+    statement: inputs with trailing bytes (finding F-C11-a, `der_strict_full_fails`). -/
+theorem der_strict_canonical_partial (sig : List UInt8)
+    (hnt : ((sig.getD 1 0) + 2).toNat = sig.length) : parseSig sig true = Spec.parseDER sig :=
+  Parsers.model_eq_spec_of_no_trailing sig hnt
+
+/-- The Spec never accepts more than the code. -/
+theorem der_spec_le_model (sig : List UInt8) (v : Nat × Nat) (h : Spec.parseDER sig = some v) :
+    parseSig sig true = some v := Parsers.spec_le_model sig v h
+
+/-- F-C11-a: the code's strict parser is NOT canonical in general — `3006020101020101 00` (r = s = 1 followed by
+    one extra byte) is accepted. -/
+theorem der_strict_full_fails : ¬ ∀ sig : List UInt8, parseSig sig true = Spec.parseDER sig := by
+  intro h
+  exact absurd (h [0x30, 0x06, 0x02, 0x01, 0x01, 0x02, 0x01, 0x01, 0x00]) (by decide)
+
+/-- parse ∘ serialise for the real serialiser (which normalises S to low-S): for every in-range (r, s),
+    the strict parser returns (r, lowS s) on `serializeDER r s`, and that output has no trailing bytes. -/
+theorem der_parse_serialize (r s : Nat) (hr1 : 1 ≤ r) (hrn : r < n) (hs1 : 1 ≤ s) (hsn : s < n) :
+    parseSig (serializeDER r s) true = some (r, lowS s) := by
+  rw [Parsers.serializeDER_eq]
+  exact (Der.parseSig_encodeDER r (lowS s) hr1 hrn (Parsers.lowS_range s hs1 hsn).1 (Parsers.lowS_range s hs1 hsn).2).1
+
+/-- serialise ∘ parse = id on accepted inputs with low S and no trailing bytes. -/
+theorem der_serialize_parse (sig : List UInt8) (r s : Nat) (h : parseSig sig true = some (r, s))
+    (hnt : ((sig.getD 1 0) + 2).toNat = sig.length) (hlow : s ≤ halfN) : serializeDER r s = sig := by
+  rw [Parsers.serializeDER_eq, Parsers.lowS_of_le s hlow]
+  exact (Der.parseSig_canonical sig r s h hnt).symm
+
+example : parseSig [0x30, 0x06, 0x02, 0x01, 0x01, 0x02, 0x01, 0x01] true = some (1, 1) := by decide
+
+/-- BIP340 signature parsing: round trips, and r ≥ p / s ≥ n are rejected. -/
+theorem schnorr_sig_parse_serialize (r s : Nat) (hr : r < p) (hs : s < n) :
+    parseSchnorrSig (serializeSchnorrSig r s) = some (r, s) := Parsers.parseSchnorr_serialize r s hr hs
+
+theorem schnorr_sig_serialize_parse (b : List UInt8) (r s : Nat) (h : parseSchnorrSig b = some (r, s)) :
+    serializeSchnorrSig r s = b ∧ r < p ∧ s < n := Parsers.serialize_parseSchnorr b r s h
+
+/-- `pubkey_serialize_roundtrip` (uncompressed): serialise ∘ parse = id on accepted 0x04 keys and
+    parse ∘ serialise = id on every finite on-curve point. -/
+theorem pubkey_serialize_roundtrip (b : List UInt8) (q : Point) (hl : b.length = 65)
+    (h4 : b.head? = some 0x04) (h : parsePubKey b = some q) : serializeUncompressed q = b :=
+  Parsers.serializeUncompressed_parse b q hl h4 h
+
+theorem pubkey_parse_serialize (x y : Nat) (hoc : onCurve (.aff x y) = true) :
+    parsePubKey (serializeUncompressed (.aff x y)) = some (.aff x y) :=
+  Parsers.parse_serializeUncompressed x y hoc
+
+example : onCurve G = true := by decide
+
+/-- every accepted 65-byte key (04 / 06 / 07) has x, y < p, lies on the curve, and a hybrid prefix matches the
+    parity of y; in particular x ≥ p, y ≥ p, off-curve points and wrong hybrid parity are rejected. -/
+theorem pubkey_65_accept (b : List UInt8) (q : Point) (hl : b.length = 65) (h : parsePubKey b = some q) :
+    ∃ fmt body, b = fmt :: body ∧ (fmt = 0x04 ∨ fmt = 0x06 ∨ fmt = 0x07) ∧
+      q = .aff (fromBE (body.take 32)) (fromBE (body.drop 32)) ∧
+      fromBE (body.take 32) < p ∧ fromBE (body.drop 32) < p ∧ onCurve q = true ∧
+      (fmt = 0x06 → fromBE (body.drop 32) % 2 = 0) ∧ (fmt = 0x07 → fromBE (body.drop 32) % 2 = 1) :=
+  Parsers.parsePubKey_65 b q hl h
+
+/-- compressed / x-only keys: x ≥ p is rejected, and the result is (x, ±sqrt(x³+7)). -/
+theorem pubkey_decompress_spec (x : Nat) (odd : Bool) (q : Point) (h : decompress x odd = some q) :
+    x < p ∧ ∃ y0, fsqrt ((x * x % p * x + curveB) % p) = some y0 ∧
+      q = .aff x (if (y0 % 2 == 1) == odd then y0 else p - y0) := Parsers.decompress_spec x odd q h
+
+/-- `ecdsa_verify_iff`: decred's Jacobian shortcut "R·z² = X ∨ (R + n < p ∧ (R+n)·z² = X)" — in affine terms
+    x = r ∨ (r + n < p ∧ x = r + n) — is the defining condition x mod n = r, for every field element x < p
+    and every r < n. -/
+theorem ecdsa_verify_iff (x r : Nat) (hx : x < p) (hr : r < n) :
+    (x = r ∨ (r + n < p ∧ x = r + n)) ↔ x % n = r := by
+  unfold p at *; unfold n at *; omega
 
 /-! ### algebra over an abstract prime-order group
 
